@@ -826,6 +826,9 @@ func c12Run(c *c12Case) (res c12Result) {
 			}
 			s.macro(e)
 		}
+		if c.Raise > 0 && s.clause != "" {
+			s.detail = "(while running the prefix, before the window was set) " + s.detail
+		}
 		if c.Raise > 0 && s.clause == "" && s.infra == "" {
 			if v, ok := c12Boundary(s.b, c.ForceWin); ok {
 				s.b.congestionWindow = congestion.ByteCount(v)
